@@ -247,17 +247,20 @@ def depend(rep: 'Report', world, module_name: str, rule_prefixes: tuple, as_rule
         cache[module_name] = 'running'
         mod = importlib.import_module(f'tsa.{module_name}')
         sub = Report(rep.prop, tier=rep.tier, seed=rep.seed, quiet=True)
+        failed = None
         try:
             mod.run(world, sub)
-            cache[module_name] = sub.instances
         except AnalysisError as e:
-            cache[module_name] = AnalysisError(f'dependency {module_name}: {e}')
+            failed = AnalysisError(f'dependency {module_name}: {e}')
         except Exception as e:
-            cache[module_name] = AnalysisError(f'dependency {module_name}: analyser raised {type(e).__name__}: {e}')
-    if isinstance(cache[module_name], AnalysisError):
-        raise cache[module_name]
-    rep.rule(as_rule, text, floor=floor)
-    for inst in cache[module_name]:
+            failed = AnalysisError(f'dependency {module_name}: analyser raised {type(e).__name__}: {e}')
+        # what the dependency decided before it gave up still stands (a violation it found is a violation here too)
+        cache[module_name] = (list(sub.instances), failed)
+    insts, failed = cache[module_name]
+    rep.rule(as_rule, text, floor=floor if failed is None else 0)
+    if failed is not None:
+        rep.error(str(failed))
+    for inst in insts:
         if inst.rule in rule_prefixes and (only is None or only(inst.construct)):
             rep.check(as_rule, f'{inst.rule}|{inst.construct}', inst.ok, line=inst.line, file=inst.file,
                       why=inst.why, facts=inst.facts, trivial=inst.trivial)
